@@ -37,9 +37,9 @@ def avg_case(args):
     # seeded random schedules, plus every single-preemption schedule of the first two clients up to a
     # bound (one client runs k actions, the other runs to completion, the first finishes): the window
     # between two statements of one call is entered systematically
-    schedules = [rng.choices(list(progs), k=rng.randint(5, 80)) for _ in range(10 if tier == 'quick' else 60)]
+    schedules = [rng.choices(list(progs), k=rng.randint(5, 80)) for _ in range(10 if tier == 'quick' else 30)]
     for a, b in ((0, 1), (1, 0)):
-        for k in range(0, 12 if tier == 'quick' else 30):
+        for k in range(0, 12 if tier == 'quick' else 20):
             schedules.append([a] * k + [b] * 200 + [a] * 200)
     for schedule in schedules:
         d = tempfile.mkdtemp(prefix='c20-', dir=scratch_root())
@@ -149,7 +149,7 @@ def _ran_between(i, attempts, starts, si):
 def run(tier, seed, rng, known, replay):
     violations = []
     # ---- Averager ---------------------------------------------------------------
-    n_cases = 24 if tier == 'quick' else 300
+    n_cases = 24 if tier == 'quick' else 120
     seeds = [rng.getrandbits(48) for _ in range(n_cases)]
     with ProcessPoolExecutor(max_workers=16) as ex:
         cases = list(ex.map(avg_case, [(s, tier) for s in seeds], chunksize=max(1, len(seeds) // 32)))
